@@ -192,8 +192,10 @@ theorem addSimplex_ok_inv {c c' : Cx α} {fs : List α} {id : α} (hI : Inv c)
       have : fs.length ≠ 0 := by simpa using hne
       omega
     set k := fs.length - 1 with hk
-    set bs := dedupL (fs.flatMap c.basisOf) with hbs
-    set s : Simp α := ⟨id, k, fs, bs⟩ with hs
+    set bs0 := dedupL (fs.flatMap c.basisOf) with hbs0
+    set fs' := canonFaces c k fs with hfs'
+    set bs := canonBasis c fs with hbs
+    set s : Simp α := ⟨id, k, fs', bs⟩ with hs
     have hmem : ∀ x, x ∈ insertSorted s c.simps ↔ x = s ∨ x ∈ c.simps := fun x => mem_insertSorted
     -- every face is an existing simplex of order k-1
     have hface : ∀ f ∈ fs, ∃ t ∈ c.simps, t.name = f ∧ t.order + 1 = k := by
@@ -210,9 +212,9 @@ theorem addSimplex_ok_inv {c c' : Cx α} {fs : List α} {id : α} (hI : Inv c)
       exact ⟨t, htm, htn, by omega⟩
     have hbasisOf : ∀ t ∈ c.simps, c.basisOf t.name = t.basis := by
       intro t ht; unfold Cx.basisOf; rw [lookup_of_mem hI ht]; rfl
-    have hbsmem : ∀ p, p ∈ bs ↔ ∃ f ∈ fs, ∃ t ∈ c.simps, t.name = f ∧ p ∈ t.basis := by
+    have hbs0mem : ∀ p, p ∈ bs0 ↔ ∃ f ∈ fs, ∃ t ∈ c.simps, t.name = f ∧ p ∈ t.basis := by
       intro p
-      rw [hbs, mem_dedupL, List.mem_flatMap]
+      rw [hbs0, mem_dedupL, List.mem_flatMap]
       constructor
       · rintro ⟨f, hf, hp⟩
         obtain ⟨t, ht, hn, -⟩ := hface f hf
@@ -221,10 +223,50 @@ theorem addSimplex_ok_inv {c c' : Cx α} {fs : List α} {id : α} (hI : Inv c)
       · rintro ⟨f, hf, t, ht, hn, hp⟩
         refine ⟨f, hf, ?_⟩
         rw [← hn, hbasisOf t ht]; exact hp
-    have hbslen : bs.length = k + 1 := by
+    have hbs0len : bs0.length = k + 1 := by
       rcases hc with hc | hc
       · exact absurd hc hne
-      · rw [hbs, hc]; omega
+      · rw [hbs0, hc]; omega
+    -- names of any one order are distinct
+    have hnamesnd : ∀ j, ((c.ofOrder j).map (·.name)).Nodup := fun j =>
+      hI.nodup.sublist (List.Sublist.map _ List.filter_sublist)
+    -- the canonical face list: same members as fs, no repeats
+    have hfs'mem : ∀ f, f ∈ fs' ↔ f ∈ fs := by
+      intro f
+      rw [hfs', canonFaces, List.mem_filter, List.mem_map]
+      constructor
+      · rintro ⟨-, h2⟩; simpa using h2
+      · intro hf
+        obtain ⟨t, ht, hn, ho⟩ := hface f hf
+        refine ⟨⟨t, ?_, hn⟩, by simpa using hf⟩
+        unfold Cx.ofOrder; rw [List.mem_filter]; exact ⟨ht, by simp; omega⟩
+    have hfs'nd : fs'.Nodup := (hnamesnd (k - 1)).filter _
+    have hfs'perm : fs'.Perm fs :=
+      (List.perm_ext_iff_of_nodup hfs'nd (by simpa using hnd)).mpr hfs'mem
+    -- the canonical basis list: same members as the union of the faces' bases, no repeats
+    have hbsmem : ∀ p, p ∈ bs ↔ ∃ f ∈ fs, ∃ t ∈ c.simps, t.name = f ∧ p ∈ t.basis := by
+      intro p
+      rw [hbs, canonBasis, List.mem_filter, List.mem_map]
+      constructor
+      · rintro ⟨-, h2⟩
+        rw [List.any_eq_true] at h2
+        obtain ⟨f, hf, hp⟩ := h2
+        rw [List.contains_iff_mem] at hp
+        obtain ⟨t, ht, hn, -⟩ := hface f hf
+        refine ⟨f, hf, t, ht, hn, ?_⟩
+        rw [← hn, hbasisOf t ht] at hp; exact hp
+      · rintro ⟨f, hf, t, ht, hn, hp⟩
+        obtain ⟨q, hq, hqn, hq0, -⟩ := hI.basis_point t.order ht rfl p hp
+        refine ⟨⟨q, ?_, hqn⟩, ?_⟩
+        · unfold Cx.ofOrder; rw [List.mem_filter]; exact ⟨hq, by simpa using hq0⟩
+        · rw [List.any_eq_true]
+          refine ⟨f, hf, ?_⟩
+          rw [List.contains_iff_mem, ← hn, hbasisOf t ht]; exact hp
+    have hbsnd : bs.Nodup := (hnamesnd 0).filter _
+    have hbslen : bs.length = k + 1 := by
+      have : bs.Perm bs0 := (List.perm_ext_iff_of_nodup hbsnd (nodup_dedupL _)).mpr
+        (fun p => (hbsmem p).trans (hbs0mem p).symm)
+      rw [this.length_eq, hbs0len]
     refine ⟨insertSorted_sorted hI.sorted, ?_, ?_, ?_, ?_⟩
     · have := (insertSorted_perm s c.simps).map (·.name)
       rw [this.nodup_iff, List.map_cons, List.nodup_cons]
@@ -238,19 +280,22 @@ theorem addSimplex_ok_inv {c c' : Cx α} {fs : List α} {id : α} (hI : Inv c)
       · exact hI.point x hx h0
     · intro x hx hpos
       rcases (hmem x).mp hx with rfl | hx
-      · refine ⟨by simpa using hnd, by simp [hs]; omega, ?_, nodup_dedupL _, hbslen, ?_⟩
-        · intro f hf; obtain ⟨t, ht, h1, h2⟩ := hface f hf
+      · refine ⟨hfs'nd, by show fs'.length = k + 1; rw [hfs'perm.length_eq]; omega, ?_, hbsnd, hbslen, ?_⟩
+        · intro f hf
+          obtain ⟨t, ht, h1, h2⟩ := hface f ((hfs'mem f).mp hf)
           exact ⟨t, (hmem t).mpr (Or.inr ht), h1, h2⟩
         · intro p
-          show p ∈ bs ↔ _
+          show p ∈ bs ↔ ∃ f ∈ fs', ∃ t ∈ insertSorted s c.simps, t.name = f ∧ p ∈ t.basis
           rw [hbsmem p]
           constructor
-          · rintro ⟨g, hg, t, ht, h1, h2⟩; exact ⟨g, hg, t, (hmem t).mpr (Or.inr ht), h1, h2⟩
           · rintro ⟨g, hg, t, ht, h1, h2⟩
+            exact ⟨g, (hfs'mem g).mpr hg, t, (hmem t).mpr (Or.inr ht), h1, h2⟩
+          · rintro ⟨g, hg, t, ht, h1, h2⟩
+            have hg' := (hfs'mem g).mp hg
             rcases (hmem t).mp ht with rfl | ht
-            · obtain ⟨t', ht', h1', -⟩ := hface g hg
+            · obtain ⟨t', ht', h1', -⟩ := hface g hg'
               exact absurd (h1'.trans h1.symm) (hidnot t' ht')
-            · exact ⟨g, hg, t, ht, h1, h2⟩
+            · exact ⟨g, hg', t, ht, h1, h2⟩
       · obtain ⟨a, b, c1, d, e, f⟩ := hI.higher x hx hpos
         refine ⟨a, b, ?_, d, e, ?_⟩
         · intro g hg; obtain ⟨t, ht, h1, h2⟩ := c1 g hg
